@@ -93,6 +93,16 @@ def gen_scenario(seed, idx):
             steps.append({"op": "update", "i": rng.randrange(4), "port": rng.choice([91, 92])})
         else:
             steps.append({"op": "sleep", "ms": rng.choice([0, 30, 200, 1000, 1001, 3000, 6000, 11000])})
+    if rng.random() < 0.3:
+        # a browser created in the very millisecond a cached pointer of its type runs out (purge and replay of `async_add_listener` must
+        # agree about that record: seeded C15-w5-seed1), and the service announced again before the next clean-up
+        t_ = rng.choice([TB, TB, TC_])
+        steps.append({"op": "deliver", "kind": "ann", "inst": rng.choice(insts), "type": t_, "ttl": rng.choice([2, 120, 4500]), "host_ttl": 120,
+                      "host": "hx.local.", "port": 81})
+        steps.append({"op": "browser_at_expiry", "types": [t_], "off": rng.choice([0, 0, 0, -1, 1])})
+        steps.append({"op": "sleep", "ms": rng.choice([1, 2000, 9000])})
+        steps.append({"op": "reannounce"})
+        steps.append({"op": "sleep", "ms": 200})
     steps.append({"op": "sleep", "ms": rng.choice([0, 1500, 12000])})
     return {"seed": seed, "idx": idx, "steps": steps}
 
@@ -132,9 +142,9 @@ def simulate(sc):
     import zeroconf._services.registry as regm
 
     sim = vsim.Sim(seed=sc["seed"] * 7919 + sc["idx"], maxdelay=0, loopback=True)
-    obs = {"blocks": [], "escapes": [], "api_raised": [], "notes": [], "inv": []}
+    obs = {"blocks": [], "escapes": [], "api_raised": [], "notes": [], "inv": [], "canary_fail": []}
     saved = []
-    st = {"zc": None, "on": False, "browsers": [], "lookups": [], "users": [], "cbs": [], "strict": True, "seen": set()}
+    st = {"zc": None, "on": False, "browsers": [], "lookups": [], "users": [], "cbs": [], "strict": True, "seen": set(), "events": [], "reann": None, "listeners": []}
 
     def patch(cls, name, fn):
         orig = getattr(cls, name)
@@ -323,6 +333,7 @@ def simulate(sc):
             # callbacks of the initial replay fire inside the constructor: the browser being created is the last one registered
             i = st["browsers"].index(s.browser) if s.browser in st["browsers"] else (len(st["browsers"]) - 1 if s.browser is None else -1)
             st["cbs"].append("%d:%s:%s:%s" % (i, ch, C.hs(t), C.hs(n)))
+            st["events"].append((id(s), ch, t, n))
             if s.bad is not None and n.startswith(s.bad):
                 raise ValueError("user handler raised for " + n)
 
@@ -417,6 +428,25 @@ def simulate(sc):
                     tasks.append(asyncio.ensure_future(si.async_request(zc, step["timeout"])))
                 elif op == "deliver":
                     deliver(packet_of(step, None), tuple(step.get("src", (PEER, step.get("port", 5353)))))
+                elif op == "browser_at_expiry":
+                    import zeroconf._dns as dnsm
+                    now_ms = float(sim.loop.ms)
+                    ptrs = [r for t_ in step["types"] for r in zc.cache.async_entries_with_name(t_)
+                            if isinstance(r, dnsm.DNSPointer) and r.created + r.ttl * 1000 > now_ms + 1]
+                    if ptrs:
+                        r = min(ptrs, key=lambda x: x.created + x.ttl * 1000)
+                        await sim.sleep_until(int(r.created + r.ttl * 1000) - vsim.T0 + step.get("off", 0))
+                        st["reann"] = (r.alias[:-len(r.name) - 1], r.name)
+                    l = L(None)
+                    br = AsyncServiceBrowser(zc, list(step["types"]), listener=l)
+                    l.browser = br
+                    pending.append(br)
+                    st["listeners"].append((l, br, list(step["types"])))
+                elif op == "reannounce":
+                    if st["reann"] is not None:
+                        inst, t_ = st["reann"]
+                        st["reann_at"] = len(st["events"])
+                        deliver(B.announce_packet(inst, t_, "hx.local.", PEER, port=83, ttl=4500), (PEER, 5353))
                 elif op == "sleep":
                     await sim.sleep_ms(step["ms"])
             except Exception as e:  # an API call of the scenario itself raised
@@ -426,6 +456,14 @@ def simulate(sc):
                 await t
             except Exception as e:
                 obs["api_raised"].append({"op": "task", "exc": B.exc_name(e)})
+        if st["reann"] is not None and "reann_at" in st:
+            inst, t_ = st["reann"]
+            name = inst + "." + t_
+            for (l, br, types) in st["listeners"]:
+                if br in zc.record_manager.listeners and t_ in types:
+                    evs = [ch for (lid, ch, tt, n) in st["events"] if lid == id(l) and n.lower() == name.lower() and ch in ("add", "rem")]
+                    if not evs or evs[-1] != "add":
+                        obs["canary_fail"].append({"name": name, "events": evs, "browser_types": types})
         close_prev()
         try:
             obs["inv"].append((len(obs["blocks"]), inv_line()))
@@ -516,6 +554,9 @@ def judge(obs, sc=None):
             bad.append((D28_SIG, D28_WHAT % (e["exc"], "a timer callback (%s)" % e["where"][:60])))
         else:
             bad.append(("C15:loop-exception:%s" % e["exc"], "the loop exception handler was called (api stream): %s %s" % (e["msg"], e["where"])))
+    for c in obs.get("canary_fail", []):
+        bad.append(("C15:canary-reannouncement-unseen", "a browser started in the millisecond a cached pointer of its type ran out was never told Added for %s although the "
+                    "service announced itself again afterwards (its Added/Removed callbacks for it: %s)" % (c["name"], c["events"])))
     for e in obs["api_raised"]:
         if e["exc"] in ("ServiceNameAlreadyRegistered", "NonUniqueNameException", "BadTypeInNameException"):
             continue
